@@ -38,6 +38,7 @@ var progs = map[string][]string{
 	"newctx":  {"setCtx", "call", "ret"},
 	"callerr": {"call", "retErr"},
 	"thrice":  {"call", "setMsg", "call", "setCtx", "call", "ret"},
+	"hedge":   {"call", "keep", "setMsg", "call", "retKept"},
 }
 
 type Event struct {
@@ -136,6 +137,11 @@ func markerOf(pl kmip.OperationPayload) int {
 	if g.UniqueIdentifier == "core" {
 		return 0
 	}
+	// a result of the core names the message token it was computed from: 0 - m
+	var cm int
+	if _, err := fmt.Sscanf(g.UniqueIdentifier, "core.m%d", &cm); err == nil {
+		return -cm
+	}
 	var s int
 	if _, err := fmt.Sscanf(g.UniqueIdentifier, "from%d", &s); err == nil {
 		return s
@@ -183,10 +189,25 @@ func interp[M any, R any](rec *recorder, s int, prog []string, ctx context.Conte
 	next func(context.Context, M) (R, error)) (R, error) {
 	u, m := tokens(msg)
 	rec.emit(u, Event{E: "enter", S: s, C: ctxToken(ctx), M: m})
-	var last R
-	var lastErr error
+	var last, kept R
+	var lastErr, keptErr error
+	var keptK string
+	var keptF int
 	for _, op := range prog {
 		switch op {
+		case "keep":
+			// the result of this invocation is a value: it is looked at now and handed back later, after another invocation
+			kept, keptErr = last, lastErr
+			keptK, keptF = res(last, lastErr)
+		case "retKept":
+			k, f := res(kept, keptErr)
+			if k != keptK || f != keptF {
+				// what was kept is no longer what it was
+				rec.emit(u, Event{E: "exit", S: s, K: k, F: f})
+				return kept, keptErr
+			}
+			rec.emit(u, Event{E: "exit", S: s, K: k, F: f})
+			return kept, keptErr
 		case "call":
 			last, lastErr = next(ctx, msg)
 		case "setMsg":
@@ -266,7 +287,7 @@ func newClientSys(rec *recorder, chain []string) (system, error) {
 				}
 				u, m := reqTokens(&req)
 				rec.emit(u, Event{E: "core", C: -1, M: m})
-				if err := st.Send(respMsg("core")); err != nil {
+				if err := st.Send(respMsg(fmt.Sprintf("core.m%d", m))); err != nil {
 					return
 				}
 			}
@@ -295,7 +316,7 @@ type coreHandler struct{ rec *recorder }
 func (h coreHandler) HandleOperation(ctx context.Context, req kmip.OperationPayload) (kmip.OperationPayload, error) {
 	u, m := parseMsgID(req.(*payloads.ActivateRequestPayload).UniqueIdentifier)
 	h.rec.emit(u, Event{E: "core", C: ctxToken(ctx), M: m})
-	return &payloads.ActivateResponsePayload{UniqueIdentifier: "core"}, nil
+	return &payloads.ActivateResponsePayload{UniqueIdentifier: fmt.Sprintf("core.m%d", m)}, nil
 }
 
 // late: the chain is registered while the executor is already serving: one request is handled before the first and after every
